@@ -174,3 +174,9 @@ TEXT["C14"] = dict(
     note="Four genuine defects repaired in /repo (vertex colours lost: has_mccv flag never set; MTXF/MTXP/blend-mesh parsers read through all following chunks, growing the tile every round; MCRF bytes read as MCRF+MCRD+MCRW and written three times; from_root_adt invented an MFBO chunk for TBC+ tiles). Content preservation itself is decided by the oracle (it needs the real parsers), not by a theorem: partial.",
     technique="Lean 4 proof (induction over the chunk list: computed positions are chunk headers; reuse of the IFF framing lemmas) + layout-to-derived-data correspondence on every written file + round-trip content oracle",
 )
+
+TEXT["C15"] = dict(
+    text="Machine-checked Lean 4 theorems about the derived data of WMO files: in a table of NUL-terminated strings the offset recorded for entry i addresses exactly string i, for every list of NUL-free strings incl. shared prefixes, repeats and empty names (stringAt_nameOffsets); the MOVV/MOVB encoding of visibility lists decodes to the same lists for every list of lists, empty lists in any position, as long as no entry equals the terminator 0xFFFF (decodeVis_encode); a chunk of n records of k bytes yields the count n. Tied to the code by recomputing MOHD counts from the chunk sizes of every written root, resolving the written MOGI offsets against MOGN and decoding the written MOVV/MOVB with the model, an independent framing walk, and write->parse->write / conversion content oracles; group files through framing and element counts.",
+    note="Partial: group content cannot be parsed back by the crate (no reader for the writer's WmoGroup), liquids/BSP not generated. One genuine defect fix in /repo (MOMT/MLIQ declared sizes, MOGI name offsets); one known finding (D39: doodad model names are not representable in WmoRoot, name offsets are renumbered on write).",
+    technique="Lean 4 proof (induction over string tables and run-length lists with arbitrary prefix) + differential correspondence on written files + round-trip oracles",
+)
